@@ -9,6 +9,18 @@ thread_local! {
     static LAST_PANIC: RefCell<Option<(String, String)>> = const { RefCell::new(None) };
 }
 
+static STOP: std::sync::atomic::AtomicBool = std::sync::atomic::AtomicBool::new(false);
+
+/// Ask the shard loop to end after the current case (used after a detected
+/// deadlock, when a helper thread is left blocked).
+pub fn request_stop() {
+    STOP.store(true, std::sync::atomic::Ordering::SeqCst);
+}
+
+pub fn stop_requested() -> bool {
+    STOP.load(std::sync::atomic::Ordering::SeqCst)
+}
+
 pub fn install_panic_hook() {
     std::panic::set_hook(Box::new(|info| {
         let loc = info
